@@ -94,7 +94,7 @@ PROPS = {
                       "UTF-8 required for name/dependency/mode/owner/group.",
         "level_note": VERUS_TRUST + "OsStr/OsString as opaque byte containers (S-os shims), String::from_utf8, from_utf8_lossy (ASCII words decode "
                       "to themselves and only to themselves), slice position; char::is_whitespace/u8::is_ascii (vstd / assumed scalar). "
-                      "The error *kind* of an invalid-UTF-8 argument is not pinned (Verus gives `?` no From specification); it is proved to be an error.",
+                      "`?` with an error conversion is written out as its defining match (rule D14) so that the Utf8 error kind is pinned.",
     },
     "C15": {
         "units": ["plist"],
